@@ -318,7 +318,10 @@ class Program:
         self.impls = []
         self.traits = {}
         self.statics = []
+        self.consts = {}
         for cn, c in crates.items():
+            for k in c.get("consts", []):
+                self.consts[k["path"]] = k["val"]
             for fj in c["fns"]:
                 f = Fn(fj, cn)
                 n = 1
